@@ -23,7 +23,7 @@ DAY_KEYS = [d.lower() for d in EN_DAYS]
 FORMATS = [
     # numeric, complete
     "%Y-%m-%d", "%d/%m/%Y", "%m/%d/%Y", "%d.%m.%Y", "%Y%m%d", "%d-%m-%y", "%y/%m/%d", "%Y-%m-%d %H:%M:%S",
-    "%Y-%m-%dT%H:%M:%S.%f", "%d.%m.%Y %H:%M:%S,%f", "%Y-%m-%d %H.%M.%S.%f", "%Y%m%d%H%M%S%f", "%d/%m/%Y %I:%M %p", "%m/%d/%y %I:%M:%S %p", "%H:%M %d.%m.%Y", "%Y/%m/%d %H:%M", "%Y %j", "%Y-%j %H:%M",
+    "%Y-%m-%dT%H:%M:%S.%f", "%d.%m.%Y.", "%d/%m/%Y %H:%M:", "%d.%m.%Y %H:%M:%S,%f", "%Y-%m-%d %H.%M.%S.%f", "%Y%m%d%H%M%S%f", "%d/%m/%Y %I:%M %p", "%m/%d/%y %I:%M:%S %p", "%H:%M %d.%m.%Y", "%Y/%m/%d %H:%M", "%Y %j", "%Y-%j %H:%M",
     # named, complete
     "%d %B %Y", "%B %d, %Y", "%d %b %Y", "%b %d %Y %H:%M", "%A, %d %B %Y", "%a %d %b %Y", "%A %d %B %Y %H:%M:%S",
     "%d %B %Y %I:%M %p", "%d-%b-%y", "%Y %B %d",
